@@ -997,7 +997,10 @@ func (m *Memory) Sync() error {
 	defer m.mx.Unlock()
 	m.syncMx.Lock()
 	defer m.syncMx.Unlock()
-	m.writeDb(false)
+	// wait for the write: the records have to show in queries from now on
+	if done := m.writeDb(false); done != nil {
+		<-done
+	}
 
 	m.log("sync OK")
 
@@ -1005,9 +1008,9 @@ func (m *Memory) Sync() error {
 }
 
 // writeDb requires [Memory.mx].
-func (m *Memory) writeDb(rLocked bool) {
+func (m *Memory) writeDb(rLocked bool) <-chan struct{} {
 	if m.SavePending.Load() <= 0 {
-		return
+		return nil
 	}
 
 	q := m.queue
@@ -1024,7 +1027,9 @@ func (m *Memory) writeDb(rLocked bool) {
 	m.SavePending.Add(-int32(l))
 
 	// fork
+	done := make(chan struct{})
 	go m.savePool.Go(func() error {
+		defer close(done)
 		if m.disposed.Load() {
 			return nil
 		}
@@ -1056,6 +1061,8 @@ func (m *Memory) writeDb(rLocked bool) {
 
 		return nil
 	})
+
+	return done
 }
 
 func (m *Memory) log(msg string, args ...any) {
